@@ -11,6 +11,13 @@ fn fmt_stub2(_a: core::fmt::Arguments<'_>) -> String {
     String::new()
 }
 
+impl KEnv {
+    /// should flush_meta_generic ever delegate to flush_top_table: that is lifted code too (K1)
+    pub(crate) fn k_flush_top_table<B: Table>(&self, rt: &B) -> Qcow2Result<()> {
+        self.seg_k1(rt)
+    }
+}
+
 // @harness c15_slice_key_of_top_offset
 // @props C15 C16 C02 C04
 // @tier quick
